@@ -1,4 +1,6 @@
 import Pushr.Spec.C15
+import Pushr.Props.C05
+import Pushr.Props.C08
 /-! # C15 — a step's time and memory are bounded by the state, not by operand magnitude
 
 The property is FALSE on the pinned tree in two ways that are not small repairs (they need a new
@@ -78,17 +80,386 @@ theorem index_growth (o : IndexOp) (s : State) : weight (semIndex o s) ≤ weigh
   cases o <;> simp only [semIndex]
   all_goals (repeat' split) <;> simp_all [weight, pushInt] <;> omega
 
+
+/-! ## the stack-manipulation family (78 instructions): a step adds at most a copy of one item -/
+
+theorem sumMap_perm {α : Type} (f : α → Nat) {l₁ l₂ : List α} (h : l₁.Perm l₂) : sumMap f l₁ = sumMap f l₂ :=
+  List.Perm.sum_nat (h.map f)
+
+theorem sumMap_getElem_le {α : Type} (f : α → Nat) (l : List α) (k : Nat) (x : α) (h : l[k]? = some x) :
+    f x ≤ sumMap f l := by
+  induction l generalizing k with
+  | nil => simp at h
+  | cons y l ih =>
+    cases k with
+    | zero => simp at h; subst h; simp [sumMap]
+    | succ k => have := ih k (by simpa using h); simp [sumMap] at this ⊢; omega
+
+theorem sumMap_tail_le {α : Type} (f : α → Nat) (l : List α) : sumMap f l.tail ≤ sumMap f l := by
+  cases l <;> simp [sumMap]
+
+/-- the typed stack behind lens `L` contributes `sumMap f` to the weight and nothing else of the weight
+depends on it -/
+def Weighted {α : Type} (L : Lens α) (f : α → Nat) : Prop :=
+  ∀ (s : State) (l : List α), weight (L.set s l) + sumMap f (L.get s) = weight s + sumMap f l
+
+theorem Weighted.get_le {α : Type} {L : Lens α} {f : α → Nat} (h : Weighted L f) (s : State) :
+    sumMap f (L.get s) ≤ weight s := by
+  have := h s []
+  simp only [sumMap, List.map_nil, List.sum_nil, Nat.add_zero] at this ⊢
+  omega
+
+theorem sumMap_one {α : Type} (l : List α) : sumMap (fun _ => 1) l = l.length := by
+  induction l with
+  | nil => rfl
+  | cons x l ih => simp only [sumMap, List.map_cons, List.sum_cons, List.length_cons] at ih ⊢; omega
+
+theorem weighted_bool : Weighted Lens.bool (fun _ => 1) := by
+  intro s l; simp only [weight, Lens.bool, sumMap_one]; omega
+theorem weighted_int : Weighted Lens.int (fun _ => 1) := by
+  intro s l; simp only [weight, Lens.int, sumMap_one]; omega
+theorem weighted_float : Weighted Lens.float (fun _ => 1) := by
+  intro s l; simp only [weight, Lens.float, sumMap_one]; omega
+theorem weighted_name : Weighted Lens.name (fun n => 1 + n.length) := by
+  intro s l; simp only [weight, Lens.name]; omega
+theorem weighted_code : Weighted Lens.code Item.size := by
+  intro s l; simp only [weight, Lens.code]; omega
+theorem weighted_exec : Weighted Lens.exec Item.size := by
+  intro s l; simp only [weight, Lens.exec]; omega
+theorem weighted_bvec : Weighted Lens.bvec (fun v => 1 + v.length) := by
+  intro s l; simp only [weight, Lens.bvec]; omega
+theorem weighted_ivec : Weighted Lens.ivec (fun v => 1 + v.length) := by
+  intro s l; simp only [weight, Lens.ivec]; omega
+theorem weighted_fvec : Weighted Lens.fvec (fun v => 1 + v.length) := by
+  intro s l; simp only [weight, Lens.fvec]; omega
+
+theorem weight_popInt (s : State) (i : Int32) (it : List Int32) (h : s.int = i :: it) :
+    weight { s with int := it } + 1 = weight s := by
+  simp [weight, h]; omega
+
+/-- the indexed operations: the index is consumed, then the stack is rearranged or gains one copy -/
+theorem withIndex_growth {α : Type} (L : Lens α) (f : α → Nat) (hW : Weighted L f) (s : State)
+    (g : List α → Nat → List α) (hg : ∀ l k, sumMap f (g l k) ≤ 2 * sumMap f l) :
+    weight (withIndex L s g) ≤ 2 * weight s := by
+  unfold withIndex
+  split
+  · omega
+  · next i it hi =>
+    have h1 := weight_popInt s i it hi
+    have h2 := hW { s with int := it } (g (L.get { s with int := it }) (clampIdx (L.get { s with int := it }).length i))
+    have h3 := hg (L.get { s with int := it }) (clampIdx (L.get { s with int := it }).length i)
+    have h4 := hW.get_le { s with int := it }
+    simp only at h2 ⊢
+    omega
+
+/-- **every DUP / POP / SWAP / ROT / YANK / YANKDUP / SHOVE / FLUSH / STACKDEPTH / ID**, on every
+stack type: the state at most doubles (one item is copied), whatever the index operand -/
+theorem stkOp_growth {α : Type} (L : Lens α) (f : α → Nat) (hW : Weighted L f) (t : Ty) (o : SOp) (s : State) :
+    weight (stkOp L t o s) ≤ 2 * weight s + 1 := by
+  have hle := hW.get_le s
+  cases o <;> simp only [stkOp]
+  case dup =>
+    split
+    · omega
+    · next x l hx =>
+      have := hW s (x :: x :: l)
+      rw [hx] at this hle
+      simp [sumMap] at this hle
+      omega
+  case pop =>
+    have := hW s (L.get s).tail
+    have := sumMap_tail_le f (L.get s)
+    omega
+  case swap =>
+    have := hW s (Seq.shove (L.get s) 1)
+    have := sumMap_perm f (C05.shove_perm (L.get s) 1)
+    omega
+  case rot =>
+    have := hW s (Seq.yank (L.get s) 2)
+    have := sumMap_perm f (C05.yank_perm (L.get s) 2)
+    omega
+  case yank =>
+    have := withIndex_growth L f hW s Seq.yank (fun l k => by have := sumMap_perm f (C05.yank_perm l k); omega)
+    omega
+  case shove =>
+    have := withIndex_growth L f hW s Seq.shove (fun l k => by have := sumMap_perm f (C05.shove_perm l k); omega)
+    omega
+  case yankdup =>
+    refine Nat.le_trans (withIndex_growth L f hW s _ (fun l k => ?_)) (by omega)
+    split
+    · next x hx => have := sumMap_getElem_le f l k x hx; simp [sumMap] at this ⊢; omega
+    · omega
+  case flush =>
+    have := hW s []
+    simp [sumMap] at this
+    omega
+  case depth => rw [weight_pushInt]; omega
+  case id => rw [weight_pushInt]; omega
+
+theorem stk_growth (t : Ty) (o : SOp) (s : State) : weight (semStk t o s) ≤ 2 * weight s + 1 := by
+  cases t <;> simp only [semStk]
+  · exact stkOp_growth _ _ weighted_bool _ o s
+  · exact stkOp_growth _ _ weighted_int _ o s
+  · exact stkOp_growth _ _ weighted_float _ o s
+  · exact stkOp_growth _ _ weighted_name _ o s
+  · exact stkOp_growth _ _ weighted_code _ o s
+  · exact stkOp_growth _ _ weighted_exec _ o s
+  · exact stkOp_growth _ _ weighted_bvec _ o s
+  · exact stkOp_growth _ _ weighted_ivec _ o s
+  · exact stkOp_growth _ _ weighted_fvec _ o s
+
+/-! ## NAME and CODE families -/
+
+/-- NAME.= / CAT / QUOTE / SEND add at most one item (CAT: one separator character) -/
+theorem name_growth (ρ : Oracle) (o : NameOp) (s : State) (h : o ≠ .rand ∧ o ≠ .randbound) :
+    weight (semName ρ o s) ≤ weight s + 1 := by
+  cases o <;> simp only [semName, bin2, Lens.name] <;> (try simp at h)
+  all_goals (repeat' split) <;> simp_all [weight, pushBool, pushName, sumMap, String.length_append, (by decide : " ".length = 1)] <;> omega
+
+/-- CODE instructions that build their result out of whole operands (QUOTE, LIST, APPEND, CAR, CDR, DO, DO*, IF,
+the conversions, the predicates …): at most one copy of what the state holds, plus a constant.
+(CONS, CONTAINER, DEFINITION, EXTRACT, INSERT, NTH and LOOP need size lemmas about sub-items and are not
+covered here; SUBST is quadratic, PRINT counts characters, RAND is K05.) -/
+theorem code_growth_partial (rc : Oracle → State → Nat → Option (Item × Nat)) (ρ : Oracle) (o : CodeOp) (s : State)
+    (h : o ≠ .subst ∧ o ≠ .print ∧ o ≠ .rand ∧ o ≠ .cons ∧ o ≠ .container ∧ o ≠ .definition ∧ o ≠ .extract ∧
+         o ≠ .insert ∧ o ≠ .nth ∧ o ≠ .loop) :
+    weight (semCode rc ρ o s) ≤ 2 * weight s + 4 := by
+  cases o <;> (try (simp at h; done)) <;> simp only [semCode]
+  case cdr =>
+    split
+    · next xs l hc =>
+      cases xs <;> simp_all [weight, sumMap, Item.size, Item.sizeL] <;> omega
+    · simp_all [weight, sumMap, Item.size, Item.sizeL] <;> omega
+    · omega
+  all_goals (repeat' split)
+  all_goals (simp_all [weight, pushBool, pushInt, pushCode, sumMap, Item.size, Item.sizeL, instr] <;> omega)
+
+
+
+/-! ### size lemmas for the CODE instructions that push a part of an operand -/
+
+mutual
+theorem size_le_of_mem_points (t q : Item) (h : q ∈ Item.points t) : q.size ≤ t.size := by
+  cases t with
+  | list xs =>
+    simp only [Item.points, List.mem_cons] at h
+    rcases h with rfl | h
+    · exact Nat.le_refl _
+    · have := size_le_of_mem_pointsL xs q h; simp only [Item.size]; omega
+  | _ => simp [Item.points] at h; subst h; exact Nat.le_refl _
+theorem size_le_of_mem_pointsL (xs : List Item) (q : Item) (h : q ∈ Item.pointsL xs) : q.size ≤ Item.sizeL xs := by
+  cases xs with
+  | nil => simp [Item.pointsL] at h
+  | cons x xs =>
+    simp only [Item.pointsL, List.mem_append] at h
+    simp only [Item.sizeL]
+    rcases h with h | h
+    · have := size_le_of_mem_points x q h; omega
+    · have := size_le_of_mem_pointsL xs q h; omega
+end
+
+theorem trav_size_le (t r : Item) (d : Nat) (hd : d < t.size) (h : Item.trav t d = .ok r) : r.size ≤ t.size := by
+  have := C08.trav_eq_points t d hd
+  rw [h] at this
+  exact size_le_of_mem_points t r (List.mem_of_getElem? (by simpa [Except.toOption] using this.symm))
+
+theorem getElem_size_le (xs : List Item) (k : Nat) (x : Item) (h : xs[k]? = some x) : x.size ≤ Item.sizeL xs := by
+  induction xs generalizing k with
+  | nil => simp at h
+  | cons y ys ih =>
+    cases k with
+    | zero => simp at h; subst h; simp [Item.sizeL]
+    | succ k => have := ih k (by simpa using h); simp [Item.sizeL]; omega
+
+theorem sizeL_app (xs ys : List Item) : Item.sizeL (xs ++ ys) = Item.sizeL xs + Item.sizeL ys := by
+  induction xs with
+  | nil => simp [Item.sizeL]
+  | cons x xs ih => simp [Item.sizeL, ih]; omega
+
+theorem consElems_sizeL_le (a : Item) : Item.sizeL (consElems a) ≤ a.size := by
+  cases a <;> simp [consElems, Item.size, Item.sizeL]
+
+theorem bindLookup_size_le (n : String) (bs : List (String × Item)) (v : Item) (h : bindLookup n bs = some v) :
+    v.size ≤ sumMap (fun p => 1 + p.1.length + p.2.size) bs := by
+  induction bs with
+  | nil => simp [bindLookup] at h
+  | cons b bs ih =>
+    obtain ⟨k, w⟩ := b
+    simp only [bindLookup] at h
+    split at h
+    · cases h; simp [sumMap]; omega
+    · have := ih h; simp [sumMap] at this ⊢; omega
+
+mutual
+theorem ins_size_le (t x t' : Item) (d : Nat) (h : Item.ins t x d = .ok t') : t'.size ≤ t.size + x.size := by
+  cases t with
+  | list xs =>
+    cases d with
+    | zero => simp [Item.ins] at h
+    | succ d =>
+      simp only [Item.ins] at h
+      split at h
+      · next xs' hxs => cases h; have := insL_size_le xs x xs' (d + 1) hxs; simp only [Item.size]; omega
+      · cases h
+  | _ => simp [Item.ins] at h
+theorem insL_size_le (xs : List Item) (x : Item) (xs' : List Item) (d : Nat) (h : Item.insL xs x d = .ok xs') :
+    Item.sizeL xs' ≤ Item.sizeL xs + x.size := by
+  cases xs with
+  | nil => simp [Item.insL] at h
+  | cons c cs =>
+    cases d with
+    | zero => simp [Item.insL] at h
+    | succ d =>
+      simp only [Item.insL] at h
+      split at h
+      · cases h; simp [Item.sizeL]; omega
+      · split at h
+        · next c' hc => cases h; have := ins_size_le c x c' d hc; simp only [Item.sizeL]; omega
+        · next d' hc =>
+          split at h
+          · next cs' hcs => cases h; have := insL_size_le cs x cs' d' hcs; simp only [Item.sizeL]; omega
+          · cases h
+end
+
+/-- CONS, CONTAINER, DEFINITION, EXTRACT, INSERT, NTH and LOOP push (a rearrangement of) parts of what the
+state already holds: the state at most doubles -/
+theorem code_growth_parts (rc : Oracle → State → Nat → Option (Item × Nat)) (ρ : Oracle) (o : CodeOp) (s : State)
+    (h : o = .cons ∨ o = .container ∨ o = .definition ∨ o = .extract ∨ o = .insert ∨ o = .nth ∨ o = .loop) :
+    weight (semCode rc ρ o s) ≤ 2 * weight s + 4 := by
+  rcases h with rfl | rfl | rfl | rfl | rfl | rfl | rfl <;> simp only [semCode]
+  · -- CONS
+    split
+    · next b a l hc =>
+      have h1 := consElems_sizeL_le a
+      have h2 := consElems_sizeL_le b
+      have h3 := sizeL_app (consElems a) (consElems b)
+      simp_all [weight, sumMap, Item.size]
+      omega
+    · omega
+  · -- CONTAINER
+    split
+    · next b a l hc =>
+      split
+      · next c hcont =>
+        have := size_le_of_mem_points b c (C08.container_spec b a c hcont).1
+        simp_all [weight, pushCode, sumMap]
+        omega
+      · simp_all [weight, pushCode, sumMap, Item.size, Item.sizeL]
+        omega
+    · omega
+  · -- DEFINITION
+    split
+    · omega
+    · next n ns hn =>
+      split
+      · next v hv =>
+        have := bindLookup_size_le n s.bindings v hv
+        simp_all [weight, sumMap]
+        omega
+      · simp_all [weight, sumMap]
+        omega
+  · -- EXTRACT
+    split
+    · omega
+    · next i il hi =>
+      split
+      · simp_all [weight, sumMap]; omega
+      · next c cl hc =>
+        split
+        · next el hel =>
+          have := trav_size_le c el _ (C08.extract_index_lt i c) hel
+          simp_all [weight, pushCode, sumMap]
+          omega
+        · simp_all [weight, sumMap]; omega
+  · -- INSERT
+    split
+    · omega
+    · next i il hi =>
+      split
+      · next top x l hc =>
+        split
+        · simp_all [weight, sumMap]; omega
+        · split
+          · simp_all [weight, sumMap]; omega
+          · split
+            · next top' hins =>
+              have := ins_size_le top x top' _ hins
+              simp_all [weight, sumMap]
+              omega
+            · simp_all [weight, sumMap]; omega
+      · simp_all [weight, sumMap]; omega
+  · -- NTH
+    split
+    · omega
+    · next i il hi =>
+      split
+      · simp_all [weight, sumMap]; omega
+      · next c cl hc =>
+        split
+        · simp_all [weight, pushCode, sumMap]; omega
+        · split
+          · next xs _ =>
+            split
+            · next x hx =>
+              have := getElem_size_le xs _ x hx
+              simp_all [weight, pushCode, sumMap, Item.size]
+              omega
+            · simp_all [weight, pushCode, sumMap, Item.size, Item.sizeL]; omega
+          · simp_all [weight, pushCode, sumMap, Item.size, Item.sizeL]; omega
+  · -- LOOP
+    split
+    · omega
+    · next body cl hc =>
+      split
+      · simp_all [weight, sumMap]; omega
+      · split
+        · simp_all [weight, sumMap, Item.size, Item.sizeL, instr]; omega
+        · simp_all [weight, sumMap]; omega
+
+/-- all CODE instructions except SUBST (quadratic), PRINT (characters) and RAND (K05) -/
+theorem code_growth (rc : Oracle → State → Nat → Option (Item × Nat)) (ρ : Oracle) (o : CodeOp) (s : State)
+    (h : o ≠ .subst ∧ o ≠ .print ∧ o ≠ .rand) :
+    weight (semCode rc ρ o s) ≤ 2 * weight s + 4 := by
+  by_cases hp : o = .cons ∨ o = .container ∨ o = .definition ∨ o = .extract ∨ o = .insert ∨ o = .nth ∨ o = .loop
+  · exact code_growth_parts rc ρ o s hp
+  · simp only [not_or] at hp
+    obtain ⟨h1, h2, h3⟩ := h
+    obtain ⟨p1, p2, p3, p4, p5, p6, p7⟩ := hp
+    exact code_growth_partial rc ρ o s ⟨h1, h2, h3, p1, p2, p3, p4, p5, p6, p7⟩
+
+/-- the instructions covered by the proved part: 7 families, 165 of the 280 registered names -/
+def covered : Instr → Bool
+  | .boolean _ | .integer _ | .float _ | .index _ | .stk _ _ => true
+  | .name o => o != .rand && o != .randbound
+  | .code o => o != .subst && o != .print && o != .rand
+  | _ => false
+
 /-- **C15, proved part**: for the BOOLEAN / INTEGER / FLOAT / INDEX families a step's growth is a
-constant, whatever the operand values -/
-theorem growth_bounded_partial (ρ : Oracle) (i : Instr) (s : State)
-    (h : match i with
-      | .boolean _ | .integer _ | .float _ | .index _ => True
-      | _ => False) :
-    weight (semFull ρ i s) ≤ weight s + 2 := by
-  cases i <;> simp only at h
-  case boolean o => have := bool_growth ρ o s; simp only [semFull, sem]; omega
-  case integer o => exact int_growth ρ o s
-  case float o => have := float_growth ρ o s; simp only [semFull, sem]; omega
-  case index o => have := index_growth o s; simp only [semFull, sem]; omega
+constant; for the 78 stack-manipulation instructions, the NAME instructions and 29 of the 32 CODE
+instructions it is at most a copy of what the state already holds plus a constant — whatever the
+operand values -/
+theorem growth_bounded_partial (ρ : Oracle) (i : Instr) (s : State) (h : covered i = true) :
+    weight (semFull ρ i s) ≤ (match i with
+      | .boolean _ | .integer _ | .float _ | .index _ => weight s + 2
+      | _ => 2 * weight s + 4) := by
+  cases i with
+  | boolean o => have := bool_growth ρ o s; simp only [semFull, sem]; omega
+  | integer o => exact int_growth ρ o s
+  | float o => have := float_growth ρ o s; simp only [semFull, sem]; omega
+  | index o => have := index_growth o s; simp only [semFull, sem]; omega
+  | stk t o => have := stk_growth t o s; simp only [semFull, sem]; omega
+  | name o =>
+    have := name_growth ρ o s (by cases o <;> simp_all [covered])
+    simp only [semFull, sem]; omega
+  | code o =>
+    exact code_growth _ ρ o s (by cases o <;> simp_all [covered])
+  | _ => simp [covered] at h
+
+set_option maxRecDepth 8000 in
+example : (Instr.all.filter covered).length = 165 := by decide
+
+/-- the doubling bound of the stack family is attained: DUP on a one-item CODE stack -/
+example : weight (semStk .code .dup { emptyState with code := [.list [.lit (.int 1), .lit (.int 2)]] }) = 6
+    ∧ weight { emptyState with code := [.list [.lit (.int 1), .lit (.int 2)]] } = 3 := by decide
 
 end Pushr.C15
